@@ -6,6 +6,8 @@ import (
 	"go/token"
 	"go/types"
 	"net/http"
+	"sort"
+	"strings"
 
 	"golang.org/x/tools/go/ssa"
 )
@@ -57,6 +59,7 @@ func runC07(c *Ctx) {
 	ruleNormalizeOfferCuts(c, "R07.6")
 	negotiateMatchers(c, "R07.6")
 	ruleOffersDefaultLast(c, "R07.1")
+	ruleSpaceClass(c, "R07.4")
 
 	// NegotiateContentEncoding
 	fe := p.Fn("rt/middleware.NegotiateContentEncoding")
@@ -753,4 +756,91 @@ func ruleParseAcceptStructure(c *Ctx, rule string) {
 		}
 	}
 
+}
+
+// ruleSpaceClass: the octet table built at init marks SP, HT, CR and LF as white space — the class skipSpace strips
+// around list separators. The set is read off the constants of the tests that guard the `t |= isSpace` step (a
+// ContainsRune over a constant string, or a chain of == comparisons): it has to be exactly those four octets.
+func ruleSpaceClass(c *Ctx, rule string) {
+	p := c.P
+	var init *ssa.Function
+	for _, f := range p.LibFuncs("rt/middleware/header") {
+		if strings.HasPrefix(f.Name(), "init#") {
+			for _, in := range instrs(f) {
+				if st, ok := in.(*ssa.Store); ok {
+					if ia, isIA := st.Addr.(*ssa.IndexAddr); isIA {
+						if g, isG := ia.X.(*ssa.Global); isG && g.Name() == "octetTypes" {
+							init = f
+						}
+					}
+				}
+			}
+		}
+	}
+	if init == nil {
+		c.obR(rule, "rt/middleware/header.init", "builds-octet-table", "", false, "the package's init fills the octet classification table", "")
+		return
+	}
+	want := p.ConstVal("github.com/go-openapi/runtime/middleware/header", "isSpace")
+	what := "the white-space class of the header tokenizer is SP, HT, CR and LF: skipSpace strips all four around the separators of a list"
+	n := 0
+	for _, in := range instrs(init) {
+		bo, ok := in.(*ssa.BinOp)
+		if !ok || bo.Op != token.OR {
+			continue
+		}
+		k, isK := bo.Y.(*ssa.Const)
+		if !isK || k.Value == nil || k.Value.ExactString() != want {
+			continue
+		}
+		n++
+		set := map[int64]bool{}
+		shape := len(bo.Block().Preds) > 0
+		for _, pred := range bo.Block().Preds {
+			iff, isIf := lastInstr(pred).(*ssa.If)
+			if !isIf || pred.Succs[0] != bo.Block() || pred.Succs[1] == bo.Block() {
+				shape = false
+				break
+			}
+			cond := iff.Cond
+			if call := asCall(cond); call != nil && calleeName(&call.Call) == "strings.ContainsRune" {
+				if str, isC := constString(call.Call.Args[0]); isC {
+					for _, r := range str {
+						set[int64(r)] = true
+					}
+					continue
+				}
+			}
+			if cb, isB := cond.(*ssa.BinOp); isB && cb.Op == token.EQL {
+				if kk, isKK := constInt(cb.Y); isKK {
+					set[kk] = true
+					continue
+				}
+				if kk, isKK := constInt(cb.X); isKK {
+					set[kk] = true
+					continue
+				}
+			}
+			shape = false
+		}
+		if !shape {
+			c.obRI(rule, bo, "space-class-is-SP-HT-CR-LF", false, what, "the tests guarding the isSpace step are not a constant set")
+			continue
+		}
+		ok4 := len(set) == 4 && set[' '] && set['\t'] && set['\r'] && set['\n']
+		var got []string
+		for _, ch := range []int64{9, 10, 13, 32} {
+			if !set[ch] {
+				got = append(got, fmt.Sprintf("octet %d is not white space", ch))
+			}
+		}
+		for ch := range set {
+			if ch != 9 && ch != 10 && ch != 13 && ch != 32 {
+				got = append(got, fmt.Sprintf("octet %d is white space", ch))
+			}
+		}
+		sort.Strings(got)
+		c.obI(rule, bo, "space-class-is-SP-HT-CR-LF", ok4, what, strings.Join(got, ", "))
+	}
+	c.obRF(rule, init, "marks-space-class", n == 1, "init marks the white-space class in one place", fmt.Sprintf("%d sites", n))
 }
